@@ -348,6 +348,10 @@ namespace chaiscript::json {
   };
 
   struct JSONParser {
+    /// Arrays and objects nested deeper than this are reported as an error
+    /// instead of overflowing the native stack
+    static constexpr int max_nesting_depth = 512;
+
     static bool isspace(const char c) noexcept {
 #ifdef CHAISCRIPT_MSVC
 // MSVC warns on these line in some circumstances
@@ -366,7 +370,7 @@ namespace chaiscript::json {
       }
     }
 
-    static JSON parse_object(const std::string &str, size_t &offset) {
+    static JSON parse_object(const std::string &str, size_t &offset, int depth) {
       JSON Object(JSON::Class::Object);
 
       ++offset;
@@ -377,13 +381,13 @@ namespace chaiscript::json {
       }
 
       for (; offset < str.size();) {
-        JSON Key = parse_next(str, offset);
+        JSON Key = parse_next(str, offset, depth + 1);
         consume_ws(str, offset);
         if (str.at(offset) != ':') {
           throw std::runtime_error(std::string("JSON ERROR: Object: Expected colon, found '") + str.at(offset) + "'\n");
         }
         consume_ws(str, ++offset);
-        JSON Value = parse_next(str, offset);
+        JSON Value = parse_next(str, offset, depth + 1);
         Object[Key.to_string()] = Value;
 
         consume_ws(str, offset);
@@ -401,7 +405,7 @@ namespace chaiscript::json {
       return Object;
     }
 
-    static JSON parse_array(const std::string &str, size_t &offset) {
+    static JSON parse_array(const std::string &str, size_t &offset, int depth) {
       JSON Array(JSON::Class::Array);
       size_t index = 0;
 
@@ -413,7 +417,7 @@ namespace chaiscript::json {
       }
 
       for (; offset < str.size();) {
-        Array[index++] = parse_next(str, offset);
+        Array[index++] = parse_next(str, offset, depth + 1);
         consume_ws(str, offset);
 
         if (str.at(offset) == ',') {
@@ -563,15 +567,18 @@ namespace chaiscript::json {
       return JSON();
     }
 
-    static JSON parse_next(const std::string &str, size_t &offset) {
+    static JSON parse_next(const std::string &str, size_t &offset, int depth = 0) {
       char value;
+      if (depth > max_nesting_depth) {
+        throw std::runtime_error("JSON ERROR: Parse: Nesting too deep");
+      }
       consume_ws(str, offset);
       value = str.at(offset);
       switch (value) {
         case '[':
-          return parse_array(str, offset);
+          return parse_array(str, offset, depth);
         case '{':
-          return parse_object(str, offset);
+          return parse_object(str, offset, depth);
         case '\"':
           return parse_string(str, offset);
         case 't':
